@@ -15,6 +15,7 @@ from . import coqlit as L
 from .core import Relation, err_kind
 
 PROP = "C01"
+CLAIMED = True
 COQ_MODULES = ["C01_Check", "C01_Proofs"]
 PROPERTY_MODULE = "C01_Property"
 ALLOWED_AXIOMS = []
@@ -201,7 +202,7 @@ class Kernel(Relation):
                     yield dict(inp, start=min(inp["end"], e + d))
 
     def signature(self, inp, obs):
-        return f"kernel get_segment kind={inp['kind']} crosses={self._crosses(inp)} pop={'founder' if inp['pop'] else 'admixed'}"
+        return f"kernel get_segment crosses-parental-boundary={self._crosses(inp)} pop={'founder' if inp['pop'] else 'admixed'}"
 
 
 # ---------------------------------------------------------------------------
